@@ -42,26 +42,86 @@ type c19Result struct {
 	JSON, YAML string
 	Sigs       []string
 	Err        string
+	Warn       string // text of the parse warning, if any
 }
 
-func c19Work(seed uint64, kp *keys.Pair) c19Result {
+func (a c19Result) same(b c19Result) bool {
+	return a.JSON == b.JSON && a.YAML == b.YAML && a.Err == b.Err && a.Warn == b.Warn && strings.Join(a.Sigs, "|") == strings.Join(b.Sigs, "|")
+}
+
+// c19ChildReq asks a fresh process for one life cycle (key material included,
+// so that Ed25519 signature bytes are comparable).
+type c19ChildReq struct {
+	Text    string
+	Seed    uint64
+	Kind    string
+	PrivSet json.RawMessage
+	PubSet  json.RawMessage
+}
+
+func init() {
+	registerChild("c19life", func(in []byte) any {
+		var q c19ChildReq
+		if err := json.Unmarshal(in, &q); err != nil {
+			return c19Result{Err: "child: " + err.Error()}
+		}
+		priv, err := jwk.Parse(q.PrivSet)
+		if err != nil {
+			return c19Result{Err: "child: " + err.Error()}
+		}
+		pub, err := jwk.Parse(q.PubSet)
+		if err != nil {
+			return c19Result{Err: "child: " + err.Error()}
+		}
+		k, _ := priv.Key(0)
+		return c19Life(q.Text, q.Seed, &keys.Pair{Kind: q.Kind, Alg: q.Kind, Signer: k, Verifier: pub, PrivSet: priv, PubSet: pub})
+	})
+}
+
+// c19Text generates the document of one life cycle: JSON text mostly; every
+// fifth a YAML text carrying non-finite floats, every fifth a styled YAML
+// rendering (anchors, aliases and merges when the document shares subtrees);
+// every third document contains steps of unknown kind.
+func c19Text(seed uint64) (string, error) {
 	r := rand.New(rand.NewPCG(seed, 17))
-	var res c19Result
-	d, err := gen.Pipeline(r, gen.PipeOpts{Str: gen.StringOpts{Tricky: true}, Refs: []string{"$X", "${Y}", "$$X", "${UNSET:-d}"}, UniqueStrings: true, NoTime: true, SmallInts: true, BigMaps: seed%3 == 0, MaxSteps: 5}.NoSweep())
+	d, err := gen.Pipeline(r, gen.PipeOpts{Str: gen.StringOpts{Tricky: true}, Refs: []string{"$X", "${Y}", "$$X", "${UNSET:-d}"}, UniqueStrings: true, NoTime: true, SmallInts: true,
+		BigMaps: seed%3 == 0, Unknown: seed%3 == 1, Sharing: seed%5 == 3, MaxSteps: 5}.NoSweep())
 	if err != nil {
-		res.Err = "gen: " + err.Error()
-		return res
+		return "", err
 	}
 	text := string(doc.ToJSON(d.Plain))
-	if seed%5 == 2 && d.Plain.Kind == doc.KMap {
+	switch {
+	case seed%5 == 2 && d.Plain.Kind == doc.KMap:
 		// a non-finite float in an untyped position: JSON marshalling of this pipeline fails (known finding K3);
 		// here it only matters that the failure is clean and identical with and without concurrency
 		text = "x_nonfinite: {deep: [.inf, {n: .nan}]}\n" + func() string { t, _ := doc.ToYAML(d.Plain, doc.YAMLOpts{}); return t }()
+	case seed%5 == 3:
+		if t, err := doc.ToYAML(d.Root, doc.YAMLOpts{Rng: r, Flow: 0.15, Anchors: d.HasSharing, Compact: seed%2 == 0}); err == nil {
+			text = t
+		}
 	}
+	return text, nil
+}
+
+func c19Work(seed uint64, kp *keys.Pair) c19Result {
+	text, err := c19Text(seed)
+	if err != nil {
+		return c19Result{Err: "gen: " + err.Error()}
+	}
+	return c19Life(text, seed, kp)
+}
+
+// c19Life runs Parse, Interpolate, matrix interpolation, both marshallers,
+// SignSteps and Verify on one document text.
+func c19Life(text string, seed uint64, kp *keys.Pair) c19Result {
+	var res c19Result
 	p, perr := parseText(text)
 	if perr != nil && !warning.Is(perr) {
 		res.Err = "parse: " + perr.Error()
 		return res
+	}
+	if perr != nil {
+		res.Warn = perr.Error()
 	}
 	// every fourth life cycle interpolates with a nil environment (the library then supplies its own)
 	var ienv pipeline.InterpolationEnv = refmodel.NewEnv(false, c04Env())
@@ -425,7 +485,7 @@ func checkC19(c *run.Ctx) {
 				if seq.Err != "" && strings.HasPrefix(seq.Err, "sign: refusing") {
 					c.Count("disjoint_refused_unknown_step", 1)
 				}
-				if seq.JSON != results[g].JSON || seq.YAML != results[g].YAML || seq.Err != results[g].Err || strings.Join(seq.Sigs, "|") != strings.Join(results[g].Sigs, "|") {
+				if !seq.same(results[g]) {
 					c.Violation(fmt.Sprintf("disjoint/%d-%d", b, g), map[string]any{"what": "working on distinct objects concurrently gave a different result than sequentially",
 						"concurrent": results[g], "sequential": seq})
 					return
@@ -585,6 +645,97 @@ func checkC19(c *run.Ctx) {
 			}
 			c.Count("mutation_checks", 3)
 			c.Eval(1)
+		}
+	})
+
+	// ---- (D) no hidden shared state across calls: the life cycle of a document in this long-lived process (after
+	// everything above, in two different orders, with the two same-id identities of a key kind alternating) gives
+	// the same results as in a process that has never done anything else
+	c.Phase("history", func() {
+		n := c.N(48, 480)
+		type job struct {
+			text string
+			seed uint64
+			kp   *keys.Pair
+		}
+		var jobs []job
+		for i := 0; i < n; i++ {
+			seed := uint64(c.Seed)*2000003 + uint64(i)
+			text, err := c19Text(seed)
+			if err != nil {
+				continue
+			}
+			jobs = append(jobs, job{text, seed, all[keys.Kinds[i%3]][(i/3)%2]})
+		}
+		// the corpus: documents from the repository's tests, real-world shapes and hostile shapes (cycles, unknown and
+		// uninferrable steps, `type` steps, look-alike keys, merges), each with every other one as its history
+		for i, data := range loadCorpus(c) {
+			if len(data) > 32*1024 {
+				continue
+			}
+			var node yaml.Node
+			if yaml.Unmarshal(data, &node) == nil {
+				if size, cyc := expansionSize(&node, map[*yaml.Node]int{}, map[*yaml.Node]bool{}); !cyc && size > c13MaxExpansion {
+					continue
+				}
+			}
+			jobs = append(jobs, job{string(data), uint64(i), all[keys.Kinds[i%3]][(i/3)%2]})
+			c.Count("history_corpus_documents", 1)
+		}
+		n = len(jobs)
+		late := make([]c19Result, n)
+		for i := range jobs {
+			late[i] = c19Life(jobs[i].text, jobs[i].seed, jobs[i].kp)
+		}
+		for i := n - 1; i >= 0; i-- {
+			again := c19Life(jobs[i].text, jobs[i].seed, jobs[i].kp)
+			c.Eval(1)
+			if !again.same(late[i]) && jobs[i].kp.Kind == "EdDSA" || again.Err != late[i].Err || again.Warn != late[i].Warn || again.JSON != late[i].JSON || again.YAML != late[i].YAML {
+				c.Violation(fmt.Sprintf("history/%d", i), map[string]any{"what": "the same life cycle on a fresh copy of the same document gave two different results in one process (forward and reverse order)",
+					"first": late[i], "second": again, "document": clip(jobs[i].text, 6000)})
+				return
+			}
+		}
+		fresh := make([]c19Result, n)
+		errs := make([]error, n)
+		var wg sync.WaitGroup
+		sem := make(chan struct{}, 16)
+		for i := range jobs {
+			wg.Add(1)
+			sem <- struct{}{}
+			go func(i int) {
+				defer wg.Done()
+				defer func() { <-sem }()
+				pb, e1 := json.Marshal(jobs[i].kp.PrivSet)
+				ub, e2 := json.Marshal(jobs[i].kp.PubSet)
+				if e1 != nil || e2 != nil {
+					errs[i] = fmt.Errorf("marshal keys: %v %v", e1, e2)
+					return
+				}
+				errs[i] = freshProcess("c19life", c19ChildReq{jobs[i].text, jobs[i].seed, jobs[i].kp.Kind, pb, ub}, &fresh[i])
+			}(i)
+		}
+		wg.Wait()
+		for i := range jobs {
+			if errs[i] != nil {
+				c.Infra("fresh process for life cycle %d: %v", i, errs[i])
+				continue
+			}
+			c.Eval(1)
+			c.Count("lifecycles_compared_with_a_fresh_process", 1)
+			if fresh[i].Warn != "" {
+				c.Count("fresh_process_lifecycles_with_warning", 1)
+			}
+			a, b := late[i], fresh[i]
+			if jobs[i].kp.Kind != "EdDSA" {
+				a.Sigs, b.Sigs = nil, nil // randomised signatures: compared through verification inside the life cycle
+			}
+			if !a.same(b) {
+				c.Violation(fmt.Sprintf("history/%d", i), map[string]any{"what": "a life cycle (Parse, Interpolate, marshal, SignSteps, Verify) gave a different result in this long-lived process than in a fresh process: results depend on what the process did before (hidden shared state)",
+					"long_lived_process": late[i], "fresh_process": fresh[i], "document": clip(jobs[i].text, 6000), "key_kind": jobs[i].kp.Kind})
+				return
+			}
+			c.Feature("history", b.Err == "", b.Warn != "", len(b.Sigs) > 0)
 		}
 	})
 
